@@ -267,6 +267,8 @@ def call_value(I: Interp, f, args, kwargs, node=None):
         pol = V.closure_policy(I, fn, deco)
         if pol == "havoc":
             return V.havoc_call(I, f"<closure {getattr(fn, 'name', 'lambda')}>", args, kwargs, node)
+        if callable(pol):
+            return pol(I, args, kwargs, node)
         qual = f"{f.frame.qual}.{getattr(fn, 'name', '<lambda>')}"
         c = V.contract_for(qual)
         if c is not None and V.current_target != qual:
